@@ -227,6 +227,9 @@ type FakeChannel struct {
 	Keep     bool
 	Refuse   bool
 	Expect   func(connIdx int) func(off int) byte
+	// BlockDial, if non-nil, makes OpenConnection wait until it is closed: a target whose
+	// connect never completes (black-holed address)
+	BlockDial chan struct{}
 
 	mu      sync.Mutex
 	Targets []*Endpoint
@@ -237,6 +240,12 @@ func (f *FakeChannel) Name() string   { return f.ChName }
 func (f *FakeChannel) String() string { return f.ChName + "->mem" }
 
 func (f *FakeChannel) OpenConnection() (net.Conn, error) {
+	if f.BlockDial != nil {
+		f.mu.Lock()
+		f.Opens++
+		f.mu.Unlock()
+		<-f.BlockDial
+	}
 	f.mu.Lock()
 	defer f.mu.Unlock()
 	f.Opens++
